@@ -47,8 +47,6 @@ enum Expect {
     Ok(BTreeMap<Key, ([f32; 3], &'static str)>),
     /// a carrier of the file has no grid supply factor
     Reject(String),
-    /// no ELECTRICIDAD in the file: the property does not decide
-    Undecided,
 }
 
 /// what preparing `input` with user RED1/RED2 must give, from the property text
@@ -81,9 +79,6 @@ fn expect_prepared(input: &[(Key, [f32; 3])], red1: Option<[f32; 3]>, red2: Opti
         if !m.contains_key(&key(cr, "RED", "SUMINISTRO", "A")) {
             return Expect::Reject(cr.clone());
         }
-    }
-    if !m.contains_key(&key("ELECTRICIDAD", "RED", "SUMINISTRO", "A")) {
-        return Expect::Undecided;
     }
     for cr in ["ELECTRICIDAD", "EAMBIENTE", "TERMOSOLAR"] {
         let supply = m.get(&key(cr, "INSITU", "SUMINISTRO", "A")).map(|x| x.0);
@@ -137,14 +132,13 @@ pub fn check_set(ctx: &Ctx, fac: &FacChoice, input: &[(Key, [f32; 3])], r: &mut 
             t.violation("C07.usable_set_rejected", format!("a set with a grid supply factor for every carrier, including ELECTRICIDAD, is rejected: {v}: {m}"), || wit(json!({})));
             return;
         }
-        (_, Expect::Undecided) => {
-            t.count("set_without_electricity.undecided");
-            return;
-        }
         (Out::Ok(f), Expect::Ok(_)) => f,
     };
     let Expect::Ok(want) = want else { return };
     let got_lines = lines_of(&prepared);
+    if !want.contains_key(&key("ELECTRICIDAD", "RED", "SUMINISTRO", "A")) {
+        t.count("sets_without_electricity_accepted");
+    }
     // (a) (c) (d): every expected key is there with the expected value
     for (k, (f, origin)) in &want {
         t.count(&format!("origin.{}", origin.split(':').next().unwrap_or("")));
@@ -294,7 +288,7 @@ pub fn run(ctx: &Ctx) -> Report {
     Report {
         tally,
         rule: "factor sets: the four regulatory locations and generated user files (any subset of carriers, any subset of on-site export factors, optional COGEN lines, pairwise distinct values, duplicates, shuffled order, comments, files with a grid factor removed), each with user RED1 / RED2 given or not; the prepared set is compared key by key with the set the property text prescribes (user values kept, method-fixed ones forced, defaults from the right source, RED1/RED2 precedence, nothing else added), prepared again (idempotence), and used to evaluate a generated building restricted to its carriers that exercises every export path; non-trivial = the file gives at least one export factor and leaves at least one to be defaulted; distinct = distinct (file text, user RED1/RED2)".into(),
-        assumptions: vec!["files without ELECTRICIDAD are not decided by the property (either outcome accepted)".into(), "duplicate keys: the first line is the one in force (Factors::find is first-match)".into()],
+        assumptions: vec!["a set that does not mention ELECTRICIDAD has no carrier without grid factor: it must be accepted (usable for buildings without electricity)".into(), "duplicate keys: the first line is the one in force (Factors::find is first-match)".into()],
         quotas,
     }
 }
